@@ -118,7 +118,6 @@ func (rc *RC) Fail(class, format string, args ...any) {
 	rc.Rec.Fail = &Failure{Class: class, Detail: d}
 }
 
-
 // Notef appends to the decoded trace (kept only when logging).
 func (rc *RC) Notef(format string, args ...any) {
 	if rc.KeepLog && len(rc.Rec.Notes) < 400 {
